@@ -120,7 +120,10 @@ type conn struct {
 	writeq bytequeue.Queue
 
 	// channels
-	channels        asyncmap.AtomicMap[bin.Bin128, internalChannel]
+	// channels is a lock based map. The lock-free asyncmap.AtomicMap can miss a present key
+	// when other keys of the same bucket are set and deleted during a lookup (a reader walks
+	// entries which are already reset), then a message of a live channel is dropped.
+	channels        asyncmap.Map[bin.Bin128, internalChannel]
 	channelsClosed  atomic.Bool
 	channelsReached atomic.Bool // number of channels reached the target number, notify delegate once
 
@@ -152,7 +155,7 @@ func newConn(
 		writer: newConnWriter(nc, client, int(opts.WriteBufferSize)),
 		writeq: bytequeue.NewCap(int(opts.WriteQueueSize)),
 
-		channels:        asyncmap.NewAtomicMap[bin.Bin128, internalChannel](),
+		channels:        asyncmap.NewShardedMap[bin.Bin128, internalChannel](),
 		closedListeners: asyncmap.NewAtomicMap[int64, func()](),
 	}
 	c.ctx = newConnContext(c)
